@@ -54,6 +54,8 @@ def check(rep: Report, ctx: Ctx) -> None:
     r13(rep, ctx)
     r14(rep, ctx)
     r15(rep, ctx)
+    r16(rep, ctx)
+    r17(rep, ctx)
 
 
 def channels(ctx: Ctx):
@@ -349,3 +351,118 @@ def r15(rep: Report, ctx: Ctx) -> None:
     rep.ob("R1.5", "the written diagram is the walked graph", ok, fi=entry,
            node=ret[0] if ret else entry.node,
            detail="return puml_graph.write_puml_string(puml_name)")
+
+
+# --------------------------------------------------------------------------
+NESTED = [
+    # (function, helper it must apply, how it reaches the nested graphs)
+    ("update_nested_node_graph_with_break_points",
+     "update_sub_graph_node_break_points"),
+    ("find_and_add_loop_kill_paths_to_nested_graphs",
+     "find_and_add_loop_kill_paths_to_sub_graph_node"),
+    ("walk_nested_graph", "create_puml_graph_from_node_class_graph"),
+    ("remove_dummy_start_and_end_events_from_nested_graphs", None),
+    ("update_nested_sub_graphs_for_dummy_break_event_nodes",
+     "update_graph_for_dummy_break_event_nodes"),
+    ("create_node_graph_from_event_graph", None),
+]
+
+
+def r16(rep: Report, ctx: Ctx) -> None:
+    rep.rule("R1.6", "every phase over the nested graphs reaches every loop "
+             "body: it recurses into .sub_graph of every loop node, "
+             "unconditionally", 6)
+    for name, helper in NESTED:
+        fi = ctx.func(name)
+        rec = calls_in(ctx, fi, fi)
+        ok, why = False, "no recursive call"
+        for call in rec:
+            arg = call.args[0] if call.args else None
+            src = ctx.defs(fi).resolve_deep(arg) if arg is not None else None
+            into_sub = src is not None and any(
+                isinstance(a, ast.Attribute) and a.attr == "sub_graph"
+                for a in ast.walk(src))
+            guards = enclosing(fi.node, call, (ast.If,))
+            # tolerated guards: isinstance(node, <loop node class>) and
+            # `sub_graph is not None`
+            g_ok = all(
+                "isinstance(" in unparse(g.test)
+                or unparse(g.test).endswith("sub_graph is not None")
+                for g in guards)
+            loops = enclosing(fi.node, call, (ast.For,))
+            filt = [l for l in loops if isinstance(l.iter, ast.Name)]
+            ok = into_sub and g_ok and bool(loops)
+            why = (f"recurses with '{unparse(arg)}' under guards "
+                   f"{[unparse(g.test)[:50] for g in guards]}")
+        rep.ob("R1.6", f"{fi.short} recurses into every loop body", ok,
+               fi=fi, node=rec[0] if rec else fi.node, detail=why)
+        if helper:
+            h = ctx.func(helper)
+            hc = calls_in(ctx, fi, h)
+            rep.ob("R1.6", f"{fi.short} applies {h.short} at every level",
+                   len(hc) >= 1, fi=fi, node=hc[0] if hc else fi.node,
+                   detail=f"{len(hc)} call(s) of {h.short}")
+
+
+def r17(rep: Report, ctx: Ctx) -> None:
+    rep.rule("R1.7", "the uids that tie a loop node to its body's dummy "
+             "entry / exit / breaks are handed over unchanged", 6)
+    mk = ctx.func("create_node_from_event")
+    ctor = [c for c in ast.walk(mk.node) if isinstance(c, ast.Call)
+            and call_name(c) == "SubGraphNode"]
+    if len(ctor) != 1:
+        raise AnalysisError(f"{mk.qualname}: expected one SubGraphNode(...)")
+    for k in ("uid", "start_uid", "end_uid", "break_uids"):
+        v = None
+        for kw_ in ctor[0].keywords:
+            if kw_.arg == k:
+                v = kw_.value
+        ok = isinstance(v, ast.Attribute) and v.attr == k and isinstance(
+            v.value, ast.Name) and v.value.id == mk.params()[0]
+        rep.ob("R1.7", f"SubGraphNode.{k} <- event.{k}", ok, fi=mk,
+               node=ctor[0], detail=f"{k}={unparse(v)}")
+    plain = [c for c in ast.walk(mk.node) if isinstance(c, ast.Call)
+             and call_name(c) == "Node"]
+    v = None
+    for c in plain:
+        for kw_ in c.keywords:
+            if kw_.arg == "uid":
+                v = kw_.value
+    rep.ob("R1.7", "Node.uid <- event.uid", unparse(v) ==
+           f"{mk.params()[0]}.uid", fi=mk, node=plain[0] if plain else mk.node,
+           detail=f"uid={unparse(v)}")
+    bp = ctx.func("update_sub_graph_node_break_points")
+    tests = [c for c in ast.walk(bp.node) if isinstance(c, ast.Compare)
+             and isinstance(c.ops[0], ast.In)]
+    ok = len(tests) == 1 and unparse(tests[0].left).endswith(".uid") and \
+        unparse(tests[0].comparators[0]).endswith(".break_uids")
+    marks = [c for c in ast.walk(bp.node) if isinstance(c, ast.Call)
+             and call_name(c) == "update_event_types"]
+    ok = ok and len(marks) == 1 and unparse(marks[0].func.value) == unparse(
+        tests[0].left)[:-4] if tests and marks else False
+    rep.ob("R1.7", "BREAK marks the body nodes whose uid is a break uid", ok,
+           fi=bp, node=tests[0] if tests else bp.node,
+           detail="if node.uid in sub_graph_node.break_uids: "
+                  "node.update_event_types(BREAK)")
+    kp = ctx.func("find_and_add_loop_kill_paths_to_sub_graph_node")
+    comps = {unparse(c.comparators[0]).split(".")[-1]: unparse(c.left)
+             for c in ast.walk(kp.node) if isinstance(c, ast.Compare)
+             and isinstance(c.ops[0], ast.Eq)
+             and unparse(c.left).endswith(".uid")}
+    rep.ob("R1.7", "loop entry / exit are found by start_uid / end_uid",
+           set(comps) >= {"start_uid", "end_uid"}, fi=kp, node=kp.node,
+           detail=f"uid comparisons against {sorted(comps)}")
+    call = [c for c in ast.walk(kp.node) if isinstance(c, ast.Call)
+            and call_name(c) ==
+            "get_all_kill_edges_from_loop_nodes_and_end_points"]
+    ok = False
+    if len(call) == 1 and len(call[0].args) == 4:
+        defs = ctx.defs(kp)
+        a_end = unparse(defs.resolve_deep(call[0].args[2]))
+        a_start = unparse(defs.resolve_deep(call[0].args[3]))
+        ok = "end_uid" in a_end and "start_uid" not in a_end and \
+            "start_uid" in a_start and "end_uid" not in a_start
+    rep.ob("R1.7", "kill edges are computed from (end points, start points) "
+           "in that order", ok, fi=kp, node=call[0] if call else kp.node,
+           detail="get_all_kill_edges_from_loop_nodes_and_end_points(graph, "
+                  "nodes, {end_point}, {start_point})")
